@@ -208,7 +208,8 @@ where
     let threads = ctx.threads.max(1).min(n.max(1) as usize);
     std::thread::scope(|s| {
         for _ in 0..threads {
-            s.spawn(|| {
+            // generous stacks: deeply nested inputs recurse deeply both in solstat and in the oracles
+            let _ = std::thread::Builder::new().stack_size(1 << 30).spawn_scoped(s, || {
                 let mut a = Acc::default();
                 a.cur_workload = name.to_string();
                 loop {
